@@ -55,7 +55,8 @@ func (rw *LegacyRewrite) matchesQType(qt uint16) (ok bool) {
 }
 
 // normalize makes sure that the new or decoded entry is normalized with regards
-// to domain name case, IP length, and so on.
+// to domain name case, including the one of a canonical name in the answer, IP
+// length, and so on.
 //
 // If rw is nil, it returns an errors.
 func (rw *LegacyRewrite) normalize() (err error) {
@@ -87,6 +88,11 @@ func (rw *LegacyRewrite) normalize() (err error) {
 	if err != nil {
 		log.Debug("normalizing legacy rewrite: %s", err)
 		rw.Type = dns.TypeCNAME
+
+		// Domain names are case-insensitive, and the answer of a CNAME entry
+		// is compared with the lower-cased host and pattern, so that a
+		// "Host.Example -> Host.Example" exception must also be recognized.
+		rw.Answer = strings.ToLower(rw.Answer)
 
 		return nil
 	}
